@@ -63,7 +63,9 @@ func dump(vs *types.ValidatorSet) string {
 	return strings.Join(s, ",")
 }
 
-type impl struct{ regs map[string]*types.ValidatorSet }
+type impl struct {
+	regs map[string]*types.ValidatorSet
+}
 
 func (im *impl) exec(line string) string {
 	return vh.Guard(func() string {
@@ -356,11 +358,53 @@ func main() {
 						fail("hash-not-function-of-content", "two validator sets with identical content hash differently", "", "")
 					}
 				}
-				r.Distinct(fmt.Sprintf("member n=%d op=%s res=%s", len(vs.Validators), strings.Fields(op)[0], strings.Fields(res+" x")[0]))
+				r.Distinct(fmt.Sprintf("member n=%d op=%s res=%s", len(vs.Validators), strings.Fields(op)[0], strings.Fields(res + " x")[0]))
 				if len(vs.Validators) == 0 {
 					break
 				}
 			}
+		}
+	}
+	// Directed, after the random sequences (their stream stays what it was): what a restarted replica
+	// hands out. The set comes back from the state database (`reload`), and every reader gets a COPY
+	// of it (State.Copy / GetState): the copy, and the copy of the copy, must name the proposer the
+	// replica that kept running names - before and after further rounds.
+	for d := 0; d < r.Scale(24, 120); d++ {
+		history = history[:1]
+		im.regs = map[string]*types.ValidatorSet{}
+		n := 2 + d%5
+		perm := R.Perm(poolSize)
+		var vals []string
+		for i := 0; i < n; i++ {
+			p := int64(1)
+			switch d % 3 {
+			case 1:
+				p = int64(1 + i)
+			case 2:
+				p = int64(R.Range(1, 9))
+			}
+			vals = append(vals, fmt.Sprintf("%s:%d", vh.Hex(pool[perm[i]].Address()), p))
+		}
+		do("new a " + strings.Join(vals, " "))
+		do("new b " + strings.Join(vals, " ")) // the replica that keeps running
+		k := R.Range(1, 2*n+1)
+		do(fmt.Sprintf("incr a %d", k))
+		do(fmt.Sprintf("incr b %d", k))
+		do("proposer a")
+		want := do("proposer b")
+		do("reload a")
+		do("copy a c")
+		do("copy c e")
+		pc, pe, pa := do("proposer c"), do("proposer e"), do("proposer a")
+		r.Count("directed.copy-of-reloaded-set")
+		if pc != want || pe != want || pa != want {
+			fail("copy-of-reloaded-set-names-another-proposer", "a copy (State.Copy, GetState) of a validator set that was read back from the state database names another proposer than the replica that kept running", "copy="+pc+" copy-of-copy="+pe+" reloaded="+pa, want)
+			continue
+		}
+		do("incr c 1")
+		do("incr b 1")
+		if pc2, pb2 := do("proposer c"), do("proposer b"); pc2 != pb2 {
+			fail("copy-of-reloaded-set-names-another-proposer", "after one more round the copy of a reloaded validator set names another proposer than the replica that kept running", pc2, pb2)
 		}
 	}
 }
